@@ -25,8 +25,12 @@ mod c01;
 mod c02;
 mod c10;
 mod c09;
+mod c04;
 
 use std::io::{BufRead, Write};
+
+#[global_allocator]
+static ALLOC: c04::Counting = c04::Counting;
 
 pub struct Ctx<'a> {
     pub id: &'static str,
@@ -80,12 +84,15 @@ fn lookup(id: &str) -> Option<(&'static str, Gen, Exec)> {
         "C02" => Some(("C02", c02::generate, c02::exec)),
         "C10" => Some(("C10", c10::generate, c10::exec)),
         "C09" => Some(("C09", c09::generate, c09::exec)),
+        "C04" => Some(("C04", c04::generate, c04::exec)),
         _ => None,
     }
 }
 
 fn main() {
-    std::panic::set_hook(Box::new(|_| {}));
+    if std::env::var_os("VH_PANIC").is_none() {
+        std::panic::set_hook(Box::new(|_| {}));
+    }
     let args: Vec<String> = std::env::args().collect();
     let stdout = std::io::stdout();
     let mut out = std::io::BufWriter::with_capacity(1 << 16, stdout.lock());
